@@ -249,6 +249,68 @@ def run_global(ix, rep, prefix='rtamt', rule='R-GLOBAL'):
                 rep.fail(rule, m.rel, sym, slot, msg, line)
         else:
             rep.ok(rule, m.rel, '<module>', 'no-shared-state', 'no function writes module-/class-level mutable state; no mutable default', 1)
+    n += _inherited_class_state(ix, rep, prefix, rule)
+    return n
+
+
+def _inherited_class_state(ix, rep, prefix, rule):
+    """a mutable container built in a class body (`table = dict()`) and filled through `self.table[k] = v` by a *subclass* in another module --
+    with no class on the way giving the instance its own container -- is one container for every instance in the process"""
+    from sa.index import ClassInfo
+    n = 0
+    level = {}      # id(ClassInfo) -> {attr: lineno}
+    classes = [c for m in ix.modules.values() for c in m.classes.values()]
+    for c in classes:
+        for st in c.node.body:
+            if isinstance(st, ast.Assign) and _is_mutable_expr(st.value):
+                for t in st.targets:
+                    if isinstance(t, ast.Name):
+                        level.setdefault(id(c), {})[t.id] = st.lineno
+    if not level:
+        return 0
+    reported = set()
+    # the monitor classes assembled by the factories (interpreter base + semantic visitor): the visitor's methods run with the interpreter's attributes
+    from sa import model as _M
+    assembled = []
+    try:
+        assembled = [m_.cls for m_ in _M.monitors(ix)]
+    except Exception:
+        assembled = []
+    for c in classes + assembled:
+        if not c.module.name.startswith(prefix) and c not in assembled:
+            continue
+        mro = [k for k in ix.mro(c) if isinstance(k, ClassInfo)]
+        owners = {}
+        for k in mro:
+            for a, ln in level.get(id(k), {}).items():
+                owners.setdefault(a, (k, ln))
+        if not owners:
+            continue
+        own_store = set()
+        for k in mro:
+            for f in k.methods.values():
+                for x in ast.walk(f.node):
+                    if isinstance(x, ast.Attribute) and isinstance(x.ctx, ast.Store) and isinstance(x.value, ast.Name) and x.value.id == 'self':
+                        own_store.add(x.attr)
+        for f in ([g for k in mro for g in k.methods.values()] if c in assembled else list(c.methods.values())):
+            for x in ast.walk(f.node):
+                a = None
+                if isinstance(x, ast.Subscript) and isinstance(x.ctx, (ast.Store, ast.Del)) and isinstance(x.value, ast.Attribute) \
+                        and isinstance(x.value.value, ast.Name) and x.value.value.id == 'self':
+                    a = x.value.attr
+                if isinstance(x, ast.Call) and isinstance(x.func, ast.Attribute) and x.func.attr in MUTATORS and isinstance(x.func.value, ast.Attribute) \
+                        and isinstance(x.func.value.value, ast.Name) and x.func.value.value.id == 'self':
+                    a = x.func.value.attr
+                if a in owners and a not in own_store and (owners[a][0] is not c or c in assembled) and owners[a][0] is not getattr(f, 'owner', None):
+                    k, ln = owners[a]
+                    key = (id(k), a)
+                    if key in reported:
+                        continue
+                    reported.add(key)
+                    n += 1
+                    rep.fail(rule, k.module.rel, '%s.%s' % (k.name, a), 'clsstate:%s.%s' % (k.name, a), 'the class body of %s builds one `%s` container; %s.%s fills it through self and no '
+                             'class on the way gives the instance a container of its own: every instance in the process -- two monitors, two specifications -- writes into the '
+                             'same one' % (k.name, a, c.name, f.node.name), ln)
     return n
 
 
